@@ -9,9 +9,9 @@ from vlib.sh.common import HI, LO, TWIN, L, attr, call, const, lam, mcall, name,
 # one representative per class: ascii, quote, backslash, space, Latin-1 above 0x7f, above 0xff, astral, digit
 ALPH = ["a", "'", "\\", " ", "\xe9", "λ", "\U0001d11e", "1"]
 FLOATS = [0.5, 1.0, 1e22, 5e-324]
-NSHAPES = 8
+NSHAPES = 9
 NKINDS = 4
-NEDITS = 13
+NEDITS = 14
 
 
 def leaf_value(kind, ci, s0, s1, sn):
@@ -37,6 +37,10 @@ def build(shape, c, v):
         body = ast.Call(ast.Attribute(ast.Name(v, L), "f", L), [leaf, at], [ast.keyword("k", ast.Constant(1))])
     elif shape == 4:
         body = ast.Dict([ast.Constant("k")], [ast.IfExp(ast.Compare(at, [ast.Lt()], [ast.Constant(2)]), leaf, at)])
+    elif shape == 8:    # variable-length lists nested in each other: a or (b and c) or <leaf>;  f(a=g(b=1), c=<leaf>)
+        inner = ast.BoolOp(ast.And(), [attr(v, "b"), attr(v, "c")])
+        g = ast.Call(ast.Name("g", L), [], [ast.keyword("b", ast.Constant(1))])
+        body = ast.Tuple([ast.BoolOp(ast.Or(), [attr(v, "a"), inner, leaf]), ast.Call(ast.Name("f", L), [], [ast.keyword("a", g), ast.keyword("c", ast.Constant(2))])], L)
     elif shape == 6:    # an optional child slot: slice with a lower bound only
         body = ast.Subscript(attr(v, "js"), ast.Slice(leaf, None, None), L)
     elif shape == 7:    # a lambda parameter with a default value
@@ -160,6 +164,12 @@ def edit(q, c, kind):
                 n.attr = n.attr + "\u03bb"
                 return True
         return False
+    if kind == 13:    # the last element of an outer list moves to the end of the inner list before it: a or (b and c) or d -> a or (b and c and d); f(a=g(b=1), c=2) -> f(a=g(b=1, c=2))
+        for n in ast.walk(q):
+            if isinstance(n, ast.BoolOp) and len(n.values) == 3 and isinstance(n.values[1], ast.BoolOp):
+                n.values[1].values.append(n.values.pop())
+                return True
+        return False
     if kind == 12:    # the same child in another optional slot: x[c:] / x[:c], lambda j, k=c / lambda j, *, k=c
         for n in ast.walk(q):
             if isinstance(n, ast.Slice) and n.upper is None and n.lower is not None:
@@ -195,9 +205,9 @@ def same(a, b):
 
 def c20(code: int, ci: int, s0: int, s1: int, sn: int, rel: int, ek: int, bn: int) -> str:
     """
-    pre: LO <= code < HI and 0 <= code < 32
+    pre: LO <= code < HI and 0 <= code < 36
     pre: 0 <= ci <= 4 and 0 <= s0 < 8 and 0 <= s1 < 8 and 0 <= sn <= 1
-    pre: 0 <= rel <= 6 and 0 <= ek < 13 and 0 <= bn <= 1
+    pre: 0 <= rel <= 6 and 0 <= ek < 14 and 0 <= bn <= 1
     post: (_ == '') != TWIN
     """
     return body(code, ci, s0, s1, sn, rel, ek, bn)
@@ -205,9 +215,9 @@ def c20(code: int, ci: int, s0: int, s1: int, sn: int, rel: int, ek: int, bn: in
 
 def c20t(code: int, ci: int, s0: int, s1: int, sn: int, rel: int, ek: int, bn: int) -> str:
     """
-    pre: LO <= code < HI and 0 <= code < 32
+    pre: LO <= code < HI and 0 <= code < 36
     pre: 0 <= ci <= 4 and 0 <= s0 < 8 and 0 <= s1 < 8 and 0 <= sn <= 2
-    pre: 0 <= rel <= 6 and 0 <= ek < 13 and 0 <= bn <= 1
+    pre: 0 <= rel <= 6 and 0 <= ek < 14 and 0 <= bn <= 1
     post: (_ == '') != TWIN
     """
     return body(code, ci, s0, s1, sn, rel, ek, bn)
